@@ -61,3 +61,18 @@ func (w *World) DomainOwner(name string) *sim.User {
 	}
 	return w.G.U.ByAddr(d.Owner)
 }
+
+// DomainBeneficiary returns the universe account recorded as the name's beneficiary (nil if none / unknown).
+func (w *World) DomainBeneficiary(name string) *sim.User {
+	v := w.Get("d_" + reverseStr(name))
+	if len(v) == 0 {
+		return nil
+	}
+	var d struct {
+		Benef keys.Address `json:"b"`
+	}
+	if json.Unmarshal(v, &d) != nil {
+		return nil
+	}
+	return w.G.U.ByAddr(d.Benef)
+}
